@@ -164,9 +164,10 @@ def placeholder_batches(run, quick):
                         k += 1
                         drv.load_snapshot(snap)
                         rec = T.Recorder(drv, "ph%d" % k)
+                        f2 = fl
                         if fl[0] == "ModifyAttribute" and ver >= (2, 0):
-                            fl = ("ModifyAttribute", {"uid": 424242, "cur": None, "new": {"name": "Name", "v": "zz"}})
-                        items = [cr, fl] + lt
+                            f2 = ("ModifyAttribute", {"uid": 424242, "cur": None, "new": {"name": "Name", "v": "zz"}})
+                        items = [cr, f2] + lt
                         rec.request({"user": "alice", "groups": None, "ver": list(ver), "opt": "Continue",
                                      "items": [{"op": o, "bid": "b%d" % i, "p": dict(p)} for i, (o, p) in enumerate(items)]})
                         rec.close()
